@@ -55,6 +55,13 @@ def run_lattice(case) -> dict:
     else:
         world = W.World(0)
         with world.installed():
+            if omit:
+                # history: the same root key id was first loaded with other parameters (defaulted hash, wrong key bytes) and used
+                # once in this process; then it is loaded again with the right ones
+                decoy = rk._replace(key=bytes(reversed(rk.key)), hash_name="SHA512" if hash_name != "SHA512" else "SHA256")
+                c0 = offline.new_cache(decoy)
+                c0._get_key(SD, rk.root_key_id, L0, 3, 3)
+                probes["root_key_reloaded_with_other_parameters"] = 1
             cache = offline.new_cache(rk)
             env = cache._get_key(SD, rk.root_key_id, L0, l1p, l2p)
         l1p, l2p = 31, 31
@@ -205,7 +212,7 @@ class C02(common.Check):
                   "transport": "simulated; 'DC unreachable' = partition"}
     assumptions = ["the lattice sweep is enumeration of workload parameters through a two-step simulated history; simulation-specific: envelope via RPC, partition, Byzantine reply"]
     required_fired = ("cover_same", "cover_same-l1", "cover_l1-1", "cover_lower", "noncover", "shape_l2_omitted", "shape_l1_absent", "history_cover",
-                      "history_noncover", "byzantine_reply")
+                      "history_noncover", "byzantine_reply", "root_key_reloaded_with_other_parameters")
 
     def exhaustive(self, tier):
         return tier == "thorough"
@@ -226,6 +233,7 @@ class C02(common.Check):
                 for omit in ((0, 1) if b_ == 31 else (0,)):
                     out.append(["lattice", h, "dc", a, b_, omit])
             out.append(["lattice", h, "rootkey", 31, 31, 0])
+            out.append(["lattice", h, "rootkey", 31, 31, 1])  # ... after the same key id was used with other parameters
         n_hist = 1200 if tier == "quick" else 40000
         for i in range(n_hist):
             out.append(gen_history(rng, i))
